@@ -1,7 +1,11 @@
 #!/usr/bin/env python3
 """Run the checks against the seeded changes under /verif/seeded.
 
-  tools/seedeval.py [id ...] [--tier quick] [--also C01,C06]
+  tools/seedeval.py [id ...] [--tier quick] [--also C01,C06] [--scratch]
+
+--scratch: leave /repo alone; evaluate in a scratch git worktree of /repo (under
+/var/tmp) with a scratch copy of /verif whose harness points at that worktree.
+Used while /repo is busy (e.g. a thorough sweep is running against it).
 
 For each seeded change: apply patch.diff to /repo's working tree, run the
 quick check of the property it breaks (and of the checks named in --also or in
@@ -28,11 +32,15 @@ def main():
     tier = "quick"
     also = []
     ids = []
+    scratch = False
     i = 0
     while i < len(args):
         if args[i] == "--tier":
             tier = args[i + 1]
             i += 2
+        elif args[i] == "--scratch":
+            scratch = True
+            i += 1
         elif args[i] == "--also":
             also = args[i + 1].split(",")
             i += 2
@@ -41,7 +49,14 @@ def main():
             i += 1
     if not ids:
         ids = sorted(d for d in os.listdir(SEEDED) if os.path.isdir(os.path.join(SEEDED, d)))
-    if sh("git -C /repo status --porcelain").stdout.strip():
+    repo, root = "/repo", ROOT
+    if scratch:
+        tag = "%d" % os.getpid()
+        repo, root = "/var/tmp/ev-repo-" + tag, "/var/tmp/ev-verif-" + tag
+        sh("git -C /repo worktree add --detach %s HEAD" % repo)
+        sh("mkdir -p %s && rsync -a --exclude .cache --exclude evidence --exclude scratch --exclude seeded %s/ %s/ && mkdir -p %s/evidence" % (root, ROOT, root, root))
+        sh("sed -i 's#=> /repo#=> %s#' %s/harness/go.mod" % (repo, root))
+    elif sh("git -C /repo status --porcelain").stdout.strip():
         print("refusing: /repo working tree is not clean")
         return 2
     for sid in ids:
@@ -63,10 +78,10 @@ def main():
             json.dump(meta, open(metap, "w"), indent=1)
             print(sid, "skipped (not confirmed)")
             continue
-        r = sh("git -C /repo apply %s/patch.diff || git -C /repo apply -3 %s/patch.diff" % (d, d))
-        stt = sh("git -C /repo status --porcelain").stdout
+        r = sh("git -C %s apply %s/patch.diff || git -C %s apply -3 %s/patch.diff" % (repo, d, repo, d))
+        stt = sh("git -C %s status --porcelain" % repo).stdout
         if stt.strip() == "" or "UU " in stt or r.returncode != 0:
-            sh("git -C /repo reset -q --hard HEAD")
+            sh("git -C %s reset -q --hard HEAD" % repo)
             print(sid, "patch did not apply cleanly to the current /repo HEAD:", r.stdout[-200:])
             continue
         checks = [prop] + [c for c in (meta.get("also") or []) + also if c != prop]
@@ -74,7 +89,7 @@ def main():
         try:
             for c in checks:
                 t0 = time.time()
-                p = sh("cd %s && VERIF_SEED=%s ./check %s %s" % (ROOT, os.environ.get("VERIF_SEED", "1"), c, tier))
+                p = sh("cd %s && VERIF_SEED=%s ./check %s %s" % (root, os.environ.get("VERIF_SEED", "1"), c, tier))
                 viol = [l for l in p.stdout.splitlines() if l.startswith("VIOLATION")]
                 msg = [l for l in p.stdout.splitlines() if l.startswith("violation message")]
                 runs["%s %s" % (c, tier)] = {
@@ -84,11 +99,13 @@ def main():
                 }
                 print(sid, c, tier, "exit", p.returncode, "violations", len(viol), "%.0fs" % (time.time() - t0))
         finally:
-            sh("git -C /repo reset -q --hard HEAD && git -C /repo clean -fdq")
+            sh("git -C %s reset -q --hard HEAD && git -C %s clean -fdq" % (repo, repo))
         meta["runs"] = runs
         meta["detected_by"] = sorted({k for k, v in runs.items() if v["exit"] == 1 and v["violations"] > 0})
         meta["what_ran"] = "git -C /repo apply seeded/%s/patch.diff; ./check <Cxx> %s; git -C /repo checkout -- ." % (sid, tier)
         json.dump(meta, open(metap, "w"), indent=1)
+    if scratch:
+        sh("git -C /repo worktree remove --force %s; rm -rf %s" % (repo, root))
     # summary table
     rows = []
     for sid in sorted(os.listdir(SEEDED)):
